@@ -116,6 +116,7 @@ func rulesSamCodec(c *Ctx, r *Report) {
 	r.check(okTags && okTagArg, "SAM-COL", where, "tags follow, TAB-separated", c.pos(w.Pos()), "every element of tagsToText(s.Tags) is written as TAB + text after the 11 columns", "the optional tags are not written as TAB-prefixed elements of tagsToText(s.Tags)")
 	rulesSamParser(c, r)
 	rulesTagTable(c, r)
+	rulesSplitTag(c, r)
 	rulesMapOrderFn(c, r, c.role("sam.tagsToText"), "formats/sam tag list")
 	rulesNoCsv(c, r, "formats/sam", []string{"ReaderHeader", "Reader", "File", "FileHeader"}, "(*SAM).Write")
 	rulesWholeLines(c, r, "formats/sam")
@@ -579,6 +580,92 @@ func rulesSamHeader(c *Ctx, r *Report) {
 		}
 	})
 	r.check(okAt, "G6", where, "header test", c.pos(split.Pos()), "a line is a header iff its first field starts with '@'", "headers are not recognised by '@' at the start of the first field")
+	// nothing else about the line decides whether it is a header
+	if join != nil {
+		sy := newSymb(f)
+		lineExpr := sy.expr(split).String()
+		var extra []string
+		for _, part := range strings.Split(guardOf(sy, join.Block(), nil), " && ") {
+			if !strings.Contains(part, lineExpr) {
+				continue
+			}
+			if strings.Contains(part, "strings.HasPrefix(") && !strings.HasPrefix(part, "!") {
+				continue
+			}
+			if part == "(0 < builtin:len("+lineExpr+"))" || part == "!(0 == builtin:len("+lineExpr+"))" || part == "(0 != builtin:len("+lineExpr+"))" || part == "(1 <= builtin:len("+lineExpr+"))" {
+				continue // always true after strings.Split
+			}
+			extra = append(extra, part)
+		}
+		r.check(len(extra) == 0, "G6", where, "header test only", c.pos(join.Pos()),
+			"the header branch is controlled by the '@' test alone (and the trivially true non-empty test): every '@' line is returned as a header whatever else it contains",
+			"whether an '@' line is treated as a header also depends on "+strings.Join(extra, " && ")+": some header lines are parsed as records")
+	}
 }
 
 var _ = constant.MakeBool
+
+// rulesSplitTag (G2-SPLIT): the value part of a tag is everything after the second colon — a ':' inside the
+// value (legal in Z and B values) must not cut it.
+func rulesSplitTag(c *Ctx, r *Report) {
+	f := c.role("sam.splitTag")
+	if f == nil || len(f.Params) != 1 {
+		r.undecided("G2-SPLIT", "formats/sam.splitTag", "anchor", "", "the function that splits a tag into name, type and value was not found")
+		return
+	}
+	where := fname(f)
+	r.analysed(where)
+	var unbounded *ssa.Call
+	var splitN *ssa.Call
+	instrs(f, func(in ssa.Instruction) {
+		cl, ok := in.(*ssa.Call)
+		if !ok || cl.Call.StaticCallee() == nil {
+			return
+		}
+		switch qname(cl.Call.StaticCallee()) {
+		case "strings.Split", "strings.FieldsFunc", "strings.Fields":
+			unbounded = cl
+		case "strings.SplitN":
+			splitN = cl
+		}
+	})
+	if unbounded != nil {
+		r.violated("G2-SPLIT", where, "value is the rest of the tag", c.pos(unbounded.Pos()), "the tag is split at every ':' ("+callName(unbounded)+"): a value that itself contains ':' is cut at its first colon and the remainder is lost")
+		return
+	}
+	if splitN != nil {
+		k, _ := cInt(constVal(splitN.Call.Args[2]))
+		sep, _ := constStr(splitN.Call.Args[1])
+		r.check(k == 3 && sep == ":" && splitN.Call.Args[0] == ssa.Value(f.Params[0]), "G2-SPLIT", where, "value is the rest of the tag", c.pos(splitN.Pos()),
+			"the tag is split into at most 3 pieces at ':': the value keeps any further colons", fmt.Sprintf("the tag is split with SplitN(_, %q, %d): not name, type and the whole remaining value", sep, k))
+		return
+	}
+	// hand-written scan: the store into element 2 is a suffix of the parameter
+	n, okAll := 0, true
+	instrs(f, func(in ssa.Instruction) {
+		st, ok := in.(*ssa.Store)
+		if !ok {
+			return
+		}
+		ia, ok := st.Addr.(*ssa.IndexAddr)
+		if !ok {
+			return
+		}
+		if k, ok := cInt(constVal(ia.Index)); !ok || k != 2 {
+			return
+		}
+		if _, isStr := st.Val.Type().Underlying().(*types.Basic); !isStr {
+			return
+		}
+		n++
+		sl, ok := st.Val.(*ssa.Slice)
+		if !ok || sl.X != ssa.Value(f.Params[0]) || sl.High != nil {
+			okAll = false
+		}
+	})
+	if n == 0 {
+		r.undecided("G2-SPLIT", where, "value is the rest of the tag", c.pos(f.Pos()), "no store into the third element of the result found: the split has a shape this rule does not cover")
+		return
+	}
+	r.check(okAll, "G2-SPLIT", where, "value is the rest of the tag", c.pos(f.Pos()), "the third piece is tag[k:], a suffix of the tag: further colons stay in the value", "the third piece is not a suffix tag[k:] of the tag: a value containing ':' is cut")
+}
